@@ -204,7 +204,7 @@ theorem linearizable' (g0 : Graph V) (s : Sys V) (h : Exec F g0 s) : Linearizabl
     from a never-evaluated graph, the response of an `Artifact` call is the from-scratch
     evaluation `Spec` of ONE state — the one its linearization point sees, i.e. the state reached
     by the operations linearized before it -/
-theorem artifact_snapshot (g0 : Graph V) (h0 : Init F g0) (hra : ReadsAll g0) (hist : List (Event V)) (S : List (LOp V))
+theorem artifact_snapshot (g0 : Graph V) (h0 : Init F g0) (hist : List (Event V)) (S : List (LOp V))
     (hS : Linearization F g0 hist S) (pre post : List (LOp V)) (o : LOp V) (i : Nat)
     (hsplit : S = pre ++ o :: post) (hcall : o.call = .artifact i) :
     o.resp = .val (Spec F (replay F g0 (pre.map (·.call))).1 i) := by
@@ -218,7 +218,7 @@ theorem artifact_snapshot (g0 : Graph V) (h0 : Init F g0) (hra : ReadsAll g0) (h
   have h2 := (List.append_inj hl hlen).2
   simp only [replay, List.cons.injEq] at h2
   rw [← h2.1, hcall]
-  exact artifact_spec (replay_inv (h0.inv hra) _) i
+  exact artifact_spec (replay_inv h0.inv _) i
 
 /-- likewise a `ParameterData` call returns the value its linearization point sees -/
 theorem paramData_snapshot (g0 : Graph V) (hist : List (Event V)) (S : List (LOp V))
@@ -321,7 +321,8 @@ theorem micro_uninterrupted (g : Graph V) (hac : Acyclic F g) (hra : ReadsAll g)
   rw [this]
   simp [micro]
 
-def f1 : List (Option Nat) → List (List Nat) → List Nat → Nat := fun _ _ vs => vs.foldl (· + ·) 1
+def f1 : List (Option Nat) → List (List Nat) → List (Option Nat) → Nat :=
+  fun _ _ vs => vs.foldl (fun a o => a + o.getD 0) 1
 
 def mkN (sc : List (Option Nat)) : SNode Nat :=
   { fn := f1, scalars := sc, arrays := [], cache := 0, version := 0, remembered := none, flag := false }
@@ -434,7 +435,7 @@ theorem artifactTrace_eval (g : Graph V) (hac : Acyclic F g) (hra : ReadsAll g) 
   obtain ⟨rank, hwf⟩ := hac
   have hgen : ∀ (ds : List Nat) (g1 : Graph V) (vals : List V),
       (artifactTrace F i s g1 ds vals).foldl (fun a f => f a) g1 =
-        (pull (Eval F) g1 ds).1.set i (.struct (s.executed (pull (Eval F) g1 ds).1 (vals ++ (pull (Eval F) g1 ds).2.1))) := by
+        (pull (Eval F) g1 ds).1.set i (.struct (s.executed (pull (Eval F) g1 ds).1 ((vals ++ (pull (Eval F) g1 ds).2.1).map some))) := by
     intro ds
     induction ds with
     | nil => intro g1 vals; simp [artifactTrace, pull]
@@ -536,7 +537,7 @@ example : ∃ s : FSys Nat, FExec 4 dia s ∧ s.hist = [.inv 0 0 (.artifact 3), 
     (.micro _ 0 0 (.artifact 3) dia [] (fun g => (Eval 4 g 1).1) rfl))
     (.invoke _ 1 (.update 0 10) rfl))
     (.micro _ 0 0 (.artifact 3) dia _ (fun g => (Eval 4 g 2).1) rfl))
-    (.micro _ 0 0 (.artifact 3) dia _ (fun g => g.set 3 (.struct ((mkN [some 1, some 2]).executed g [2, 2]))) rfl))
+    (.micro _ 0 0 (.artifact 3) dia _ (fun g => g.set 3 (.struct ((mkN [some 1, some 2]).executed g [some 2, some 2]))) rfl))
     (.finish _ 0 0 (.artifact 3) dia _ rfl ?_), rfl, ?_, rfl⟩
   · exact artifactTrace_eval (F := 4) dia dia_init.1 dia_readsAll 3 (mkN [some 1, some 2]) rfl (by decide)
   · decide
